@@ -12,4 +12,6 @@ func checkC10(c *Check) {
 	c.peerStopDisablesBoth("C10.3 stop-joins-everything")
 	c.serveShutdown("C10.3 stop-joins-everything")
 	c.cleanupOnExit("C10.5 cleanup-completeness")
+	c.disableStopsAndJoins("C10.3 stop-joins-everything")
+	c.packageState("C10.1 package-state")
 }
